@@ -281,3 +281,11 @@ def rule_inventory(ctx):
 
 
 RULES.append(("C10.h", "state-mutation inventory: no new site that changes the content of the state this property rests on", rule_inventory))
+
+
+def rule_mustpass(ctx):
+    from . import mustpass
+    mustpass.check(ctx, ['periodic-reinserted'])
+
+
+RULES.append(("C10.i", "must-pass-through: no path around the effects this property rests on (added fast paths / early returns)", rule_mustpass))
